@@ -55,7 +55,7 @@ def wrong_shapes(rng, qshape, trailing, dyn):
 
 def generate(rng, tier):
     cases = []
-    reps = 90 if tier == "quick" else 2500
+    reps = gen.N(tier, 90, 2500)
     for _ in range(reps):
         S = rng.choice(["Q", "F"])
         two_d = rng.random() < 0.3
